@@ -356,6 +356,7 @@ fn run(ctx: &mut Ctx) {
             let mut g = Gen::new(&mut rq, &snap, vocab.n_ent, vocab.n_pred, vocab.n_num);
             if big {
                 g.max_depth = 2;
+                g.allow_empty = false;
             }
             g.hidden_order_keys = true;
             let (q, _) = g.gen_select(0, true);
@@ -366,6 +367,9 @@ fn run(ctx: &mut Ctx) {
             let class = if features.iter().any(|f| f.starts_with("edge:")) { "edge" } else { "core" };
             let legacy = qi % 3 == 2;
             ctx.add_evals(1);
+            if std::env::var("KV_TRACE").is_ok() {
+                eprintln!("TRACE case {} query {}: {} quads: {}", k, qi, snap.quads.len(), text);
+            }
             match judge(&mut db, &snap, &q, &text, legacy, class, ctx) {
                 Judged::Skipped => ctx.count("skipped_oracle_answer_too_big", 1),
                 Judged::Held { full, rows } => {
